@@ -219,7 +219,57 @@ fn efg_fault(s: &mut Stream, efg: &cli::EfgText, tree: &T, constant: f64) -> Opt
             Some(cand[s.below(cand.len())])
         }
     };
-    match s.below(14).min(12) {
+    match s.below(17).min(13) {
+        13 => {
+            // Edit one payoff of one outcome, wherever its payoff list is written (a leaf, an
+            // interior player or chance node, possibly an outcome other nodes refer to by number),
+            // and work out from the file's own structure whether the result is still constant-sum
+            // by the documented rule: rejected iff 1000 * range of the half sums > range of player
+            // one's payoffs. Edits within 1 % of that boundary are not generated.
+            let cand: Vec<usize> = lines
+                .iter()
+                .enumerate()
+                .filter(|(_, l)| l.has_pays && l.outcome != 0 && lines.iter().filter(|m| m.outcome == l.outcome && m.has_pays).count() == 1)
+                .map(|(i, _)| i)
+                .collect();
+            if cand.is_empty() {
+                return None;
+            }
+            let i = cand[s.below(cand.len().min(256))];
+            let num = lines[i].outcome;
+            let base = cli::efg_leaf_sums(lines, &efg.outcomes)?;
+            let d = base.iter().map(|x| x.0).fold(f64::NEG_INFINITY, f64::max) - base.iter().map(|x| x.0).fold(f64::INFINITY, f64::min);
+            if !(d > 0.0) {
+                return None;
+            }
+            let factor = [1.02, 2.0, 100.0, 0.5, 0.98, 7.0][s.below(6)];
+            let delta = factor * d / 500.0 * if s.bool() { 1.0 } else { -1.0 };
+            let l = &lines[i].text;
+            let open = l.rfind('{')?;
+            let inner = l[open + 1..l.rfind('}')?].replace(',', " ");
+            let nums: Vec<&str> = inner.split_whitespace().collect();
+            if nums.len() != 2 {
+                return None;
+            }
+            let second = parse_efg_num(nums[1])? + delta;
+            let mut table = efg.outcomes.clone();
+            let old = *table.get(&num)?;
+            table.insert(num, (old.0, second));
+            let sums = cli::efg_leaf_sums(lines, &table)?;
+            let half: Vec<f64> = sums.iter().map(|(a, b)| a + (b - a) / 2.0).collect();
+            let spread = half.iter().copied().fold(f64::NEG_INFINITY, f64::max) - half.iter().copied().fold(f64::INFINITY, f64::min);
+            let ratio = spread * 1000.0 / d;
+            let expect = if ratio > 1.01 {
+                Expect::Reject("gambit-payoff-edit-not-constant-sum", vec!["constant"])
+            } else if ratio < 0.99 {
+                Expect::Accept("gambit-payoff-edit-within-tolerance")
+            } else {
+                return None;
+            };
+            let mut t = texts.clone();
+            t[i] = format!("{}{{ {} {} }}", &l[..open], nums[0], second);
+            Some((rebuild(&efg.header, &t), expect, i > 0))
+        }
         0 => {
             let text = rebuild(&efg.header, &texts);
             if text.len() < 30 {
@@ -511,7 +561,7 @@ pub fn decode(bytes: &[u8]) -> Option<Case> {
         let text = if efg {
             // the Gambit grammar validates infoset action sets and chance distributions itself
             kw.extend(KW_GAMBIT.iter());
-            let opts = EfgOpts { constant: 0.0, interior: false, share_outcomes: false, unnamed_fraction: 0 };
+            let opts = EfgOpts { unit: 0.0, constant: 0.0, interior: false, share_outcomes: false, unnamed_fraction: 0 };
             match std::panic::catch_unwind(std::panic::AssertUnwindSafe(|| cli::to_efg_text(&tree, &opts, &mut s))) {
                 Ok(t) => t.text,
                 Err(_) => return None,
@@ -522,9 +572,13 @@ pub fn decode(bytes: &[u8]) -> Option<Case> {
         note = format!("{:?} on tree {}", ops, tree.brief());
         (text, Expect::Reject("library-contract-violation", kw), true)
     } else if efg {
-        let constant = [0.0, 1.0, 10.0][s.below(3)];
+        // the constant-sum tolerance is relative to player one's payoff range, so the unit in
+        // which a file states its payoffs must not matter: powers of two keep every number exact
+        let unit = [1.0, 1.0, 1.0, 9.094947017729282e-13, 7.888609052210118e-31, 1073741824.0][s.below(6)];
+        tree.map_payoffs(&|p| p * unit);
+        let constant = [0.0, 1.0, 10.0][s.below(3)] * unit;
         let opts = EfgOpts {
-            constant,
+            unit, constant,
             interior: s.bool(),
             share_outcomes: s.chance(64),
             unnamed_fraction: [0, 96][s.below(2)],
@@ -684,7 +738,7 @@ pub fn prop() -> Prop {
         id: "C17",
         check,
         describe,
-        rule: "a generated valid file plus one semantic corruption whose outcome is known by construction, under explicit and automatic format selection, file and stdin, with and without -o. JSON: truncation, removed brace/quote, trailing garbage, dropped prob/state/player_one/infoset/actions/outcomes, wrong types, unknown or double variant tag, non-finite payoff literal, non-positive probability, empty actions/outcomes. Gambit: truncation, header damage, three players, player number 3, chance probabilities not summing to one, three payoffs, payoffs on the null outcome, a leaf payoff moved beyond the constant-sum tolerance by factors {1.01, 2, 100} (controls at 0.5 and 0.99 must be accepted), 1e400 payoffs, two infosets under one name (explicit, or the number string of an unnamed one). Both: any contract violation operator of C11 carried through the format. Oracle: exit status != 0, empty stdout, no -o file, stderr naming a keyword of the expected category (loose alternatives; auto-detection may report its own category). Non-trivial = the corruption is not at the first node; distinct by file text.",
+        rule: "a generated valid file plus one semantic corruption whose outcome is known by construction, under explicit and automatic format selection, file and stdin, with and without -o. JSON: truncation, removed brace/quote, trailing garbage, dropped prob/state/player_one/infoset/actions/outcomes, wrong types, unknown or double variant tag, non-finite payoff literal, non-positive probability, empty actions/outcomes. Gambit: truncation, header damage, three players, player number 3, chance probabilities not summing to one, three payoffs, payoffs on the null outcome, a leaf payoff moved beyond the constant-sum tolerance by factors {1.01, 2, 100} (controls at 0.5 and 0.99 must be accepted), one payoff of any outcome (leaf, interior player or chance node, also one that other nodes refer to by number) edited by a multiple of the tolerance with the verdict computed from the file's own structure, 1e400 payoffs, two infosets under one name (explicit, or the number string of an unnamed one). Both: any contract violation operator of C11 carried through the format. Oracle: exit status != 0, empty stdout, no -o file, stderr naming a keyword of the expected category (loose alternatives; auto-detection may report its own category). Non-trivial = the corruption is not at the first node; distinct by file text.",
         max_len: 900,
         cases_quick: 120_000,
         cases_thorough: 1_200_000,
